@@ -3,7 +3,7 @@ Hypothesis strategies (DESIGN.md 2.3).  Construction, not rejection: every gener
 documented contract of the types it uses (asserted with catalogue.in_contract by the callers).
 
 Known finding K1 (gcc does not support a zero upper capacity) is excluded from the main generators by
-construction (allow_zero_cap=False); the excluded region is counted by the callers.
+construction (allow_zero_cap=True); the excluded region is counted by the callers.
 """
 
 from hypothesis import strategies as st
@@ -34,7 +34,7 @@ def _span(box):
 
 
 @st.composite
-def params_for(draw, name, box, allow_zero_cap=False, big=False):
+def params_for(draw, name, box, allow_zero_cap=True, big=False):
     """Parameters of a constraint of the given type over the given (already chosen) views."""
     n = len(box)
     lo, hi = _span(box)
@@ -83,7 +83,7 @@ def params_for(draw, name, box, allow_zero_cap=False, big=False):
 # box cases (propagator level: C05, C06, C07, C14, C16)
 # ----------------------------------------------------------------------------------------------
 @st.composite
-def box_case(draw, types=None, max_n=4, max_w=3, lo=-3, hi=4, allow_zero_cap=False, point=False, big=False):
+def box_case(draw, types=None, max_n=4, max_w=3, lo=-3, hi=4, allow_zero_cap=True, point=False, big=False):
     pool = list(types or ALL_TYPES)
     # more weight on the propagators with deep data-dependent branching (Hall intervals, lex automaton, indices)
     pool = pool + [x for x in pool if x in HEAVY_TYPES] * 2
@@ -173,7 +173,7 @@ def _scope(draw, cands, n, repeats):
 
 
 @st.composite
-def propagator_on(draw, case, types, max_arity=4, allow_zero_cap=False, repeat_prob=4):
+def propagator_on(draw, case, types, max_arity=4, allow_zero_cap=True, repeat_prob=4):
     """One in-contract constraint over the variables of the (partial) problem case."""
     nv = len(case["idx"])
     allv = list(range(nv))
@@ -223,7 +223,7 @@ def problem_case(
     max_arity=4,
     max_points=20000,
     profiles=("general", "general", "bool", "perm", "nonneg", "wide"),
-    allow_zero_cap=False,
+    allow_zero_cap=True,
     extra_vars=True,
     min_props=1,
 ):
